@@ -19,17 +19,32 @@ def scratch(prefix: str = "lspverif-") -> str:
 
 
 def run_generator(plugin: str, out_dir: str, models: Optional[Sequence[str]] = None, hashseed: int = 0,
-                  timeout: int = 600) -> subprocess.CompletedProcess:
-    """`python -m generator --plugin <p> --output-dir out --test-dir out/tests [--model ...]` from REPO."""
+                  timeout: int = 600, spelling: str = "default") -> subprocess.CompletedProcess:
+    """`python -m generator --plugin <p> --output-dir out --test-dir out/tests [--model ...]`.
+
+    spelling: "default"  - run from REPO with absolute paths;
+              "cwd"      - the same command from an unrelated working directory;
+              "relative" - from the parent of the output directory, every path given relative to it."""
     test_dir = os.path.join(out_dir, "_tests")
-    cmd = [PY, "-B", "-m", "generator", "--plugin", plugin, "--output-dir", out_dir, "--test-dir", test_dir]
+    cwd = REPO
+    tmp_cwd = None
+    if spelling == "cwd":
+        cwd = tmp_cwd = scratch("lspverif-cwd-")
+    elif spelling == "relative":
+        cwd = os.path.dirname(os.path.abspath(out_dir))
+    rel = (lambda p: os.path.relpath(p, cwd)) if spelling == "relative" else (lambda p: p)
+    cmd = [PY, "-B", "-m", "generator", "--plugin", plugin, "--output-dir", rel(out_dir), "--test-dir", rel(test_dir)]
     if models:
-        cmd += ["--model", *models]
+        cmd += ["--model", *[rel(m) for m in models]]
     env = dict(os.environ)
     env["PYTHONHASHSEED"] = str(hashseed)
     env["PYTHONPATH"] = REPO
     env["PYTHONDONTWRITEBYTECODE"] = "1"
-    return subprocess.run(cmd, cwd=REPO, env=env, capture_output=True, text=True, timeout=timeout)
+    try:
+        return subprocess.run(cmd, cwd=cwd, env=env, capture_output=True, text=True, timeout=timeout)
+    finally:
+        if tmp_cwd:
+            shutil.rmtree(tmp_cwd, ignore_errors=True)
 
 
 def rustfmt(path: str) -> None:
